@@ -233,14 +233,15 @@ class Program:
 
 # ------------------------------------------------------------------ frames / store
 class Frame:
-    def __init__(self, fn, fid, locals_=None, ret_dest=None, ret_target=None, caller_bb=None):
+    def __init__(self, fn, fid, locals_=None, ret_dest=None, ret_target=None, caller_bb=None, gen=None):
         self.fn, self.fid = fn, fid
+        self.gen = gen or []
         self.locals = locals_ if locals_ is not None else {}
         self.ret_dest, self.ret_target = ret_dest, ret_target
         self.bb = 0
 
     def clone(self):
-        f = Frame(self.fn, self.fid, dict(self.locals), self.ret_dest, self.ret_target)
+        f = Frame(self.fn, self.fid, dict(self.locals), self.ret_dest, self.ret_target, gen=self.gen)
         f.bb = self.bb
         return f
 
@@ -713,6 +714,13 @@ class Executor:
     # ---- calls
     def call(self, stk, fr, t, cnd):
         func = t.a["func"]
+        # instantiate a bare generic parameter of the enclosing (generic) MIR body
+        mg = re.match(r"<([A-Z][A-Za-z0-9]*) as ", func)
+        if mg and len(fr.gen) == 1:
+            func = "<" + fr.gen[0] + func[1 + len(mg.group(1)):]
+        mg = re.search(r"::<([A-Z][A-Za-z0-9]*)>$", func)
+        if mg and len(fr.gen) == 1 and mg.group(1) not in INT_W:
+            func = func[: mg.start()] + "::<" + fr.gen[0] + ">"
         args = [self.operand(stk, fr, a) for a in t.a["args"]]
         dest, target = t.a["dest"], t.a["target"]
         base = strip_generics(func)
@@ -763,6 +771,11 @@ class Executor:
             m = re.search(r"::<(.*)>$", func)
             ty = m.group(1) if m else "?"
             key = (meth, ty)
+            prim = re.fullmatch(r"(?:core::sync::atomic::)?(?:Atomic<)?([a-z0-9]+)>?", ty.strip())
+            if meth in ("size_of", "align_of") and prim and prim.group(1) in INT_W:
+                return ret(bv(INT_W[prim.group(1)] // 8, 64))
+            if meth in ("size_of", "align_of") and ty.strip().endswith("SegmentNode"):
+                return ret(bv(8, 64))
             if key in self.cfg["layouts"]:
                 return ret(bv(self.cfg["layouts"][key], 64))
             raise Unsupported("layout of %s" % (key,))
@@ -824,7 +837,9 @@ class Executor:
             if name in self.cfg.get("summaries", {}):
                 return ret(self.cfg["summaries"][name](self, args))
             fn = self.p.fn(name)
-            nf = Frame(fn, fr.fid + ((fr.fn.name, fr.bb),), {}, dest, target)
+            gm = re.search(r"::<(.*)>$", func)
+            gen = mir.split_top(gm.group(1)) if gm else []
+            nf = Frame(fn, fr.fid + ((fr.fn.name, fr.bb),), {}, dest, target, gen=gen)
             for i, v in enumerate(args):
                 nf.locals[i + 1] = v
             stk.append(nf)
